@@ -16,7 +16,7 @@ helpers = {
  'recordOutput': ('(s : St) (cfg : OutCfg) (n : Nat) (args : Args)', 's cfg n args', ['active','forced','counter','log','playbackOutputs'],
     'unfold recordOutput; split <;> (try split) <;> simp'),
  'afterInput': ('(cfg : InCfg) (args : Args) (k0 : Key) (s : St) (o : Out)', 'cfg args k0 s o', ['active','forced','counter','log'],
-    'unfold afterInput; split <;> (try split) <;> (try split) <;> simp'),
+    'unfold afterInput; split <;> simp'),
  'afterOutput': ('(alias : String) (n : Nat) (s : St) (o : Out)', 'alias n s o', ['active'],
     'unfold afterOutput; split <;> simp'),
 }
